@@ -80,10 +80,10 @@ Definition sort_z (l : list Z) := fold_right insert_z [] l.
 Definition observe (r : res outv) (s : st) : obs :=
   {| o_out := match r with Ret v => XRet v | Raise e => XExc e end;
      o_log := rev (log s);
-     o_tables := map (fun t => sort_by_id (t_rows t)) (tables s);
+     o_tables := map (fun t => sort_by_id (t_rows t)) (tlist (tables s));
      o_slots := map (option_map (view s)) (slots s);
      o_cached := map (fun c => (map fst (c_strong c),
-                                sort_z (map fst (filter (fun e => alive s [] (snd e)) (c_weak c))))) (caches s) |}.
+                                sort_z (map fst (filter (fun e => alive s [] (snd e)) (c_weak c))))) (tlist (caches s)) |}.
 
 (* index of the first step on which model and implementation differ *)
 Fixpoint first_bad (cfg : config) (s : st) (steps : list (op * obs)) (n : nat) : option nat :=
